@@ -93,6 +93,62 @@ impl Write for Sink {
     }
 }
 
+/// A sink that, like `Vec<u8>` or a file, takes every slice of a vectored write.
+struct AllSink {
+    data: Arc<Mutex<Vec<u8>>>,
+    cap: usize,
+}
+
+impl Write for AllSink {
+    fn write(&mut self, buf: &[u8]) -> io::Result<usize> {
+        let mut d = self.data.lock().expect("sink");
+        if d.len() + buf.len() > self.cap {
+            return Err(io::Error::other("sink received far more bytes than were written"));
+        }
+        d.extend_from_slice(buf);
+        Ok(buf.len())
+    }
+    fn write_vectored(&mut self, bufs: &[io::IoSlice<'_>]) -> io::Result<usize> {
+        let mut n = 0;
+        for b in bufs {
+            n += self.write(b)?;
+        }
+        Ok(n)
+    }
+    fn flush(&mut self) -> io::Result<()> {
+        Ok(())
+    }
+}
+
+/// What `Write::write_all_vectored` does (unstable in std): repeat until every slice is written.
+fn write_all_vectored(w: &mut dyn Write, slices: &[&[u8]]) -> io::Result<()> {
+    let mut rest: Vec<&[u8]> = slices.iter().copied().filter(|s| !s.is_empty()).collect();
+    let mut guard = 0usize;
+    while !rest.is_empty() {
+        guard += 1;
+        if guard > 10_000_000 {
+            return Err(io::Error::other("no progress"));
+        }
+        let io: Vec<io::IoSlice<'_>> = rest.iter().map(|s| io::IoSlice::new(s)).collect();
+        let mut n = match w.write_vectored(&io) {
+            Ok(0) => return Err(io::Error::from(io::ErrorKind::WriteZero)),
+            Ok(n) => n,
+            Err(e) if e.kind() == io::ErrorKind::Interrupted => continue,
+            Err(e) => return Err(e),
+        };
+        while n > 0 && !rest.is_empty() {
+            if n >= rest[0].len() {
+                n -= rest[0].len();
+                rest.remove(0);
+            } else {
+                rest[0] = &rest[0][n..];
+                n = 0;
+            }
+        }
+    }
+    Ok(())
+}
+
 const MARKER: u8 = b'|';
 
 /// bytes for messages: lossy text, cut to a readable length
@@ -149,6 +205,42 @@ pub fn run_one(input: &[u8], chunks: &[usize], sink: &[u8], kind: &str, finish_b
                 let got = d.lock().expect("sink").clone();
                 if got != input {
                     detail.push(format!("tee: {name} target got {} bytes {:?}, input was {} bytes {:?}", got.len(), show(&got), input.len(), show(input)));
+                }
+            }
+        }
+        "tee-vectored" => {
+            // the caller uses write_vectored (several slices per call); one target takes all
+            // slices of a call, the other only what a plain `write` takes
+            let da = Arc::new(Mutex::new(Vec::new()));
+            let a = AllSink { data: da.clone(), cap: 8 * input.len() + 4096 };
+            let (b, db) = mk(1);
+            let swapped = sink.first().is_some_and(|d| d % 2 == 1);
+            let mut slices: Vec<&[u8]> = Vec::new();
+            let mut pos = 0;
+            for c in chunks {
+                let end = (pos + c).min(input.len());
+                slices.push(&input[pos..end]);
+                pos = end;
+            }
+            slices.push(&input[pos..]);
+            let res = if swapped {
+                let mut t = tee(b, a);
+                let r = write_all_vectored(&mut t, &slices);
+                drop(t);
+                r
+            } else {
+                let mut t = tee(a, b);
+                let r = write_all_vectored(&mut t, &slices);
+                drop(t);
+                r
+            };
+            if let Err(e) = res {
+                detail.push(format!("tee (vectored) write failed: {e}"));
+            }
+            for (name, d) in [("all-slices", da), ("plain", db)] {
+                let got = d.lock().expect("sink").clone();
+                if got != input {
+                    detail.push(format!("tee (vectored writes): {name} target got {} bytes {:?}, input was {} bytes {:?}", got.len(), show(&got), input.len(), show(input)));
                 }
             }
         }
@@ -225,7 +317,11 @@ pub fn run_many(global_seed: u64, base: u64, n: u64) -> DirectSummary {
             left -= c.min(left);
         }
         let sink: Vec<u8> = (0..r.usize(5)).map(|_| r.below(4) as u8).collect();
-        let kind = if r.chance(1, 3) { "tee" } else { "mapped" };
+        let kind = match r.below(6) {
+            0 => "tee",
+            1 => "tee-vectored",
+            _ => "mapped",
+        };
         let finish_by_unwrap = r.bool();
         let detail = run_one(&input, &chunks, &sink, kind, finish_by_unwrap, &stats);
         sum.runs += 1;
